@@ -180,5 +180,5 @@ const ruleC18 = "rapid draws (instant, delay, offset): instants in [1970, NTP er
 func TestC18(t *testing.T) {
 	r := begin(t, "C18", "exploration", ruleC18)
 	defer r.finish()
-	subC18.rapidRun(r, n(60000, 1500000), genTimeCase)
+	subC18.rapidRun(r, n(60000, 10000000), genTimeCase)
 }
